@@ -10,7 +10,7 @@ from . import common, mapfam
 
 ID = 'C01'
 LEVEL = 'exploration'
-QUOTA = {'quick': 1400, 'thorough': 16000}
+QUOTA = {'quick': 1700, 'thorough': 16000}
 BUDGET = {'quick': 100, 'thorough': 900}
 RULE = ('scenario = generated world (taxonomy depth 1-4 incl. single-node top levels and single-child chains, '
         'marker table usable at the root, query of 1-30 cells in one of three encodings) x run configuration '
